@@ -3,7 +3,9 @@
 The rules no longer look for statements of a particular shape.  optimism/VTKWriter.py is *interpreted* on a symbolic writer by the
 symbolic-shape interpreter of rules/C20_eval.py (integers = polynomials over size symbols, arrays = shapes, text = abstract token
 sequences, heap objects with identity and a mutation log; helper methods / module functions / NamedTuples / properties / comprehensions /
-functools.partial / dict dispatch tables are simply executed).  For every *situation* (element order 1..4; no / some marker spheres;
+functools.partial / dict dispatch tables are simply executed; functions of PRIVATE helper modules of the library -- `optimism/_xxx.py`,
+`optimism/sub/_xxx.py`, imported absolutely or relatively, as a module or name by name -- are loaded from the source tree and followed like
+same-module helpers, each with its own globals; public modules of the library stay un-interpreted).  For every *situation* (element order 1..4; no / some marker spheres;
 no / empty / some contact edges; no / some nodal fields; no / some cell fields; every field kind x every VTK data type as an entry class
 of the field dictionaries) the public API is driven as a user would:
 
@@ -654,9 +656,20 @@ def check_cell_records(I, by, agg, sit_s):
 
 # ================================================================================================== one situation
 
+def _module_source(ctx):
+    """source of the (non-test) modules of the library, for the private helper modules the interpreter follows (C20_eval.lib_module)"""
+    def get(name):
+        m = ctx.repo.module(name)
+        if m is None or m.is_test:
+            return None
+        ctx.analysed_modules.add(name)
+        return m.tree
+    return get
+
+
 def run_situation(ctx, tree, sit, agg, stats):
     sit_s = str(sit)
-    I = Interp(tree, ctx.repo.scope_of, V)
+    I = Interp(tree, ctx.repo.scope_of, V, _module_source(ctx))
     try:
         w, info = build_writer(I, sit, agg)
     except (Undecidable, ProgramError) as e:
@@ -808,7 +821,7 @@ def _show_atom(a):
 # ================================================================================================== default_values directly
 
 def check_default_values(ctx, tree, agg, stats=None):
-    I = Interp(tree, ctx.repo.scope_of, V)
+    I = Interp(tree, ctx.repo.scope_of, V, _module_source(ctx))
     fn = I.globals.lookup("default_values")
     kinds, dtypes = I.globals.lookup("VTKFieldType"), I.globals.lookup("VTKDataType")
     if not isinstance(fn, Func) or not isinstance(kinds, UserClass) or not isinstance(dtypes, UserClass):
